@@ -1,6 +1,7 @@
 package main
 
 import (
+	"encoding/hex"
 	"fmt"
 	"strings"
 
@@ -163,6 +164,15 @@ func runC09(c *Ctx) {
 				v := genVal(r, sc.Cols[col])
 				if sc.Cols[col].Typ == 'i' && v.K == 'i' {
 					v.I += 100 // a value no statement of the program produces
+				}
+				if cells := cur[key]; sc.Cols[col].Typ == 's' && col < len(cells) && strings.HasPrefix(cells[col], "s") {
+					// a text that reads as a number is changed into another text for the same number ("7" -> "007")
+					if raw, err := hex.DecodeString(cells[col][1:]); err == nil {
+						if tw, ok := numericTwin(string(raw), f); ok {
+							v = ATVal{K: 's', S: tw}
+							c.Out.Count("foreign.numeric-twin")
+						}
+					}
 				}
 				st = &ATStmt{Kind: 'U', Sets: []ATSet{{Col: col, Plus: -1, E: &ATExpr{K: 'a', Val: v}}}, Where: where}
 			}
